@@ -667,6 +667,27 @@ def run(ctx):
     ctx.rule('R16t', 'get_latex_expression() swallows only the unexpected-closing-brace error of the expression parser', 1)
     _swallowed_error_is_closing_brace(ctx, repo, w)
 
+    # ---- R16u, R16v
+    ctx.rule('R16u', 'legacy methods build a default parsing state only when none was given; otherwise they derive from the '
+                     'caller\'s state', 5)
+    shim_state_derivation(ctx, 'R16u', w)
+    ctx.rule('R16v', 'the obsolete is_math_mode option installs the math-mode body delta exactly when it is true (False and '
+                     'None both mean text mode, as for the pylatexenc-3 spelling without a body delta)', 1)
+    try:
+        mm_cases = symex.Walker(is_sink=lambda c: call_name(c) == 'ParsingStateDeltaEnterMathMode').run(ci)
+    except symex.TooManyPaths:
+        mm_cases = []
+    okv = bool(mm_cases)
+    for cs in mm_cases:
+        facts = symex.facts_of(cs.conds)
+        okv = okv and (('self.is_math_mode', True) in facts or ('self.is_math_mode is True', True) in facts)
+    ctx.decide('R16v', okv, sp, mm_cases[0].node if mm_cases else ci,
+               'ParsingStateDeltaEnterMathMode() is installed under `self.is_math_mode` true',
+               'CallableSpec.__init__ installs the math-mode body delta on a path that does not test is_math_mode for truth '
+               '(%s): an explicit is_math_mode=False makes the body of the environment be parsed in math mode'
+               % (' & '.join(mm_cases[0].cond_src())[-100:] if mm_cases else 'no such path'),
+               construct='CallableSpec.__init__: is_math_mode')
+
     return 'other', (
         'Decides the wiring of the backward-compatible entry points onto the new parser objects: '
         'which parser each one builds, that every option is live and forwarded, that stop options '
@@ -1147,3 +1168,34 @@ def _swallowed_error_is_closing_brace(ctx, repo, w):
                       other[0][0].lineno if other else '?', other[0][1].get('unexpected') if other else '?'), construct=cons)
         return
     ctx.unknown('R16t', w, sw[0], 'how the swallowed error is recognised is not understood', construct=cons)
+
+
+
+def shim_state_derivation(ctx, rule, w):
+    """a legacy method builds a default parsing state (make_parsing_state) only when the caller
+    gave none; every other state it uses is derived from the caller's state with sub_context()"""
+    n = 0
+    for shim, fnode in sorted(w.functions.items()):
+        if not shim.startswith('_pyltxenc2_LatexWalker_') or '.' in shim:
+            continue
+        if 'parsing_state' not in [a.arg for a in fnode.args.args]:
+            continue
+        try:
+            cases = symex.Walker(is_sink=lambda c: call_name(c) == 'make_parsing_state').run(fnode)
+        except symex.TooManyPaths:
+            ctx.unknown(rule, w, fnode, 'too many paths', construct=shim + ': state derivation')
+            continue
+        bad = None
+        for cs in cases:
+            facts = symex.facts_of(cs.conds)
+            if ('parsing_state is None', True) not in facts and bad is None:
+                bad = cs
+        n += 1
+        ctx.decide(rule, bad is None, w, bad.node if bad else fnode,
+                   '%s: make_parsing_state() only under `parsing_state is None`' % shim,
+                   '%s builds a fresh default state (%s) on the path [%s] although the caller supplied a parsing state: the '
+                   'caller\'s settings (math mode, delimiters) are dropped, so the content of `\\sqrt[..]` read inside a '
+                   'formula is recorded as text mode' % (shim, short(bad.node, 50) if bad else '',
+                                                        ' & '.join(bad.cond_src())[-100:] if bad else ''),
+                   construct=shim + ': state derivation')
+    return n
